@@ -668,12 +668,22 @@ func (w *World) fsRename(ex *Exec, c *callCtx) Value {
 			}
 			a, b := xa.f, xb.f
 			alive, _ := w.effect(withGuard(c, g), "rename", b)
+			// line i of the new content and line i of the old content are never both there:
+			// one cell per position (keeps the number of cells at max, not sum, of the two files)
 			var cells []*LineCell
-			for _, cl := range b.Cells {
-				cells = append(cells, &LineCell{Pres: And(cl.Pres, Not(alive)), Blank: cl.Blank, Parses: cl.Parses, Complete: cl.Complete, Ev: cl.Ev})
-			}
-			for _, cl := range a.Cells {
-				cells = append(cells, &LineCell{Pres: And(cl.Pres, alive), Blank: cl.Blank, Parses: cl.Parses, Complete: cl.Complete, Ev: cl.Ev})
+			for i := 0; i < len(a.Cells) || i < len(b.Cells); i++ {
+				switch {
+				case i < len(a.Cells) && i < len(b.Cells):
+					na, ob := a.Cells[i], b.Cells[i]
+					cells = append(cells, &LineCell{Pres: Ite(alive, na.Pres, ob.Pres), Blank: Ite(alive, na.Blank, ob.Blank), Parses: Ite(alive, na.Parses, ob.Parses),
+						Complete: Ite(alive, na.Complete, ob.Complete), Ev: MergeV(alive, na.Ev, ob.Ev)})
+				case i < len(a.Cells):
+					cl := a.Cells[i]
+					cells = append(cells, &LineCell{Pres: And(cl.Pres, alive), Blank: cl.Blank, Parses: cl.Parses, Complete: cl.Complete, Ev: cl.Ev})
+				default:
+					cl := b.Cells[i]
+					cells = append(cells, &LineCell{Pres: And(cl.Pres, Not(alive)), Blank: cl.Blank, Parses: cl.Parses, Complete: cl.Complete, Ev: cl.Ev})
+				}
 			}
 			for _, cl := range a.Cells {
 				cl.Pres = And(cl.Pres, Not(alive))
